@@ -39,13 +39,14 @@ def unit_text(unit_or_path, depth=0):
 
 def unit_dependencies(unit, idx):
     """what a unit's proofs rest on, as written in the unit: `//@define ASSUME_UNIT_x` (contracts of unit x included in
-    assume mode) and `ASSUMED-FROM-UNIT: <unit> …` / `ASSUMED-FROM-UNIT: kani <harness> …` comments on assumed contracts"""
+    assume mode: the whole unit) and `ASSUMED-FROM-UNIT: <unit> <functions…>` / `ASSUMED-FROM-UNIT: kani <harness> …`
+    comments on assumed contracts.  Returns ({dep unit: set of words of the comment, or None for the whole unit}, harnesses)"""
     t = unit_text(unit)
-    units, harnesses = set(), set()
+    units, harnesses = {}, set()
     known = set(all_units())
     for m in re.finditer(r"//@define\s+ASSUME_UNIT_(\w+)", t):
         if m.group(1) in known:
-            units.add(m.group(1))
+            units[m.group(1)] = None
     for m in re.finditer(r"ASSUMED-FROM-UNIT:\s*(.*)", t):
         rest = m.group(1).strip()
         toks = rest.split()
@@ -58,20 +59,50 @@ def unit_dependencies(unit, idx):
                 elif name in idx:
                     harnesses.add(name)
         elif toks[0] in known:
-            units.add(toks[0])
-    units.discard(unit)
+            words = set(re.findall(r"[A-Za-z_][A-Za-z0-9_]*", rest.split(" — ")[0]))
+            if toks[0] in units and units[toks[0]] is None:
+                continue
+            units.setdefault(toks[0], set()).update(words)
+    units.pop(unit, None)
     return units, harnesses
 
 
 def dependency_closure(units, idx):
     """direct dependencies only: the contracts these units themselves assume.  (The transitive closure is nearly every
     unit and harness for nearly every property; what a dependency assumes in turn is decided under its own properties.)"""
-    du, dh = set(), set()
+    du, dh = {}, set()
     for u in units:
         a, b = unit_dependencies(u, idx)
-        du |= a
         dh |= b
-    return sorted(du - set(units)), sorted(dh)
+        for k, w in a.items():
+            if k in units:
+                continue
+            if w is None or du.get(k, set()) is None:
+                du[k] = None
+            else:
+                du.setdefault(k, set()).update(w)
+    return du, sorted(dh)
+
+
+def reachable_functions(items, words):
+    """functions of a dependency unit that an assumed contract rests on: the functions named in the ASSUMED-FROM-UNIT
+    comment and everything they call inside that unit (textual call graph over the extracted items, by short name)"""
+    fns = {}
+    for it in items:
+        if it.get("kind") == "fn":
+            fns.setdefault(it["name"], []).append(it.get("src_text", ""))
+    start = set(n for n in fns if n in words)
+    if not start:
+        return None   # the comment names no function of that unit: the whole unit
+    seen, todo = set(start), list(start)
+    while todo:
+        n = todo.pop()
+        for body in fns.get(n, []):
+            for callee in fns:
+                if callee not in seen and re.search(r"\b%s\s*(::<[^>]*>)?\(" % re.escape(callee), body):
+                    seen.add(callee)
+                    todo.append(callee)
+    return seen
 
 
 def load_json(path, dflt):
@@ -166,7 +197,8 @@ def check_property(prop, tier):
                        and (tier == "thorough" or m.get("tier", "quick") == "quick"))
     # what the proofs of these units rest on (contracts they assume from other units / harnesses): run too; a failure
     # anywhere in a dependency breaks this property's proof and is reported under it, whatever its own tag says
-    dep_units, dep_h = dependency_closure(units, idx)
+    dep_map, dep_h = dependency_closure(units, idx)
+    dep_units = sorted(dep_map)
     dep_h = sorted(h for h in dep_h if h not in harnesses and (tier == "thorough" or idx[h].get("tier", "quick") == "quick"))
     own_units = list(units)
     own_harnesses = list(harnesses)
@@ -234,8 +266,13 @@ def check_property(prop, tier):
             if f["success"]:
                 discharged += 1
         backends["verus"] = backends.get("verus", 0) + len(r.functions)
+        dep_fns = reachable_functions(r.items, dep_map[u]) if (is_dep and dep_map.get(u) is not None) else None
         for f in r.failures:
-            if not is_dep and not failure_belongs(f, prop, uprops):
+            if is_dep:
+                # only what the assumed contracts rest on: the functions named in the comments and their callees
+                if dep_fns is not None and f.get("function") not in dep_fns:
+                    continue
+            elif not failure_belongs(f, prop, uprops):
                 continue
             ob = obligation_name(f)
             if is_dep:
@@ -333,7 +370,7 @@ def check_property(prop, tier):
             "samples": samples[:60] or ["(no obligation sample)"],
             "units": unit_summ,
             "dependencies": {"units": dep_units, "kani_harnesses": dep_h,
-                             "meaning": "contracts the units of this property assume from other units / harnesses (ASSUMED-FROM-UNIT comments, ASSUME_UNIT includes), one level deep; they are run too and any failed obligation in them is reported under this property"},
+                             "meaning": "contracts the units of this property assume from other units / harnesses (ASSUMED-FROM-UNIT comments, ASSUME_UNIT includes), one level deep; they are run too, and a failed obligation in a function such a contract rests on (the functions named in the comment and what they call inside that unit; the whole unit for an include in assume mode) is reported under this property"},
             "kani_harnesses": {h: {k: v for k, v in (kres.harnesses.get(h) or {}).items() if k in ("status", "time_s", "checks", "covers_ok", "covers_total")} for h in harnesses} if kres else {},
             "under_contract": under_contract,
             "backends": backends,
